@@ -521,7 +521,7 @@ def reset_table(ctx, cname):
             ctx.ob("TAB-reset", site, "detect_batch=%d: the reference is kept whole and nothing is replayed [%s]" % (db, cname), not rec and not st, "")
         fin = tr.final.attrs if tr.final is not None else {}
         # the epoch marker: lambda = number of batches seen before the epoch's first (possibly replayed) batch is counted
-        lam = [e for e in tr.stores("_lambda") if e.func.name == "reset" and len(e.stack) <= 2]
+        lam = [e for e in tr.stores("_lambda") if q.within(e, HDMQ + ".reset", ("update", "set_reference", "_adaptive_threshold", "_estimate_initial_epsilon"))]
         okl = len(lam) == 1 and lam[0].value == A("_total_batches") and (not rec or lam[0].seq < rec[0].seq)
         ctx.ob("TAB-reset", site, "the epoch marker lambda is set to the batches seen so far, before anything of the new epoch is counted (detect_batch=%d) [%s]" % (db, cname), okl,
                "lambda := %s%s" % (q.short(lam[0].value, 60) if lam else "not stored", "" if not rec or not lam or lam[0].seq < rec[0].seq else " - but only after the replayed batch was counted"),
@@ -530,8 +530,8 @@ def reset_table(ctx, cname):
             ctx.ob("TAB-reset", site, "the epoch's epsilon statistics restart (detect_batch=%d) [%s]" % (db, cname),
                    fin.get("epsilon") == atom(("list", ())) and fin.get("total_epsilon") == const(0), "")
         else:
-            e1 = [e for e in tr.stores("epsilon") if e.func.name == "reset"]
-            e2 = [e for e in tr.stores("total_epsilon") if e.func.name == "reset"]
+            e1 = [e for e in tr.stores("epsilon") if q.within(e, HDMQ + ".reset", ("update", "set_reference", "_adaptive_threshold", "_estimate_initial_epsilon"))]
+            e2 = [e for e in tr.stores("total_epsilon") if q.within(e, HDMQ + ".reset", ("update", "set_reference", "_adaptive_threshold", "_estimate_initial_epsilon"))]
             ctx.ob("TAB-reset", site, "the epoch's epsilon statistics restart before the replay (detect_batch=1) [%s]" % cname,
                    len(e1) == 1 and e1[0].value == atom(("list", ())) and len(e2) == 1 and e2[0].value == const(0) and (not rec or e1[0].seq < rec[0].seq), "")
 
@@ -553,7 +553,7 @@ def set_reference_table(ctx, cname):
     site = HDMQ + ".set_reference"
     tr = ctx.trace(cname, "set_reference", assume={"detect_batch": 3}, nonnull=("X",))
     xv = q.validated(tr, 0)
-    st = [e for e in tr.stores("reference") if e.func.name == "set_reference"]
+    st = [e for e in tr.stores("reference") if q.within(e, HDMQ + ".set_reference", ("reset", "update"))]
     ok = False
     if xv is not None and len(st) == 1:
         want = atom(("call", "copy.deepcopy", (atom(("call", "pandas.DataFrame", (xv,), (("columns", A("_input_cols")),))),), ()))
